@@ -13,6 +13,7 @@ from ..util import Info, expect, expect_eq, impl, nibbles_of
 from .c01 import UNIVERSE
 
 ID = "C10"
+ATHERIS = True  # thorough tier: coverage-guided second engine over the same strategy/run_case
 LEVEL = "exploration"
 BUDGET = {"quick": 8000, "thorough": 600000}
 RULE = (
